@@ -17,6 +17,18 @@ def reg1_2(ctx: Ctx) -> None:
     regs = [s for s in dec.body if (isinstance(s, ast.Assign) and norm(s.targets[0]) == "registry")
             or (isinstance(s, ast.AnnAssign) and norm(s.target) == "registry" and s.value is not None)]
     if len(regs) != 1:
+        # the dispatcher may have become a class: its registry must then be created per instance, not once per class
+        for cls_ in [c for c in ast.walk(mod.tree) if isinstance(c, ast.ClassDef) and c.name != "IdentityDict"]:
+            for st in cls_.body:
+                tg = st.targets[0] if isinstance(st, ast.Assign) else (st.target if isinstance(st, ast.AnnAssign) else None)
+                v_ = getattr(st, "value", None)
+                if isinstance(tg, ast.Name) and isinstance(v_, ast.Call) and norm(v_.func).split("[")[0] in ("IdentityDict", "dict", "WeakKeyDictionary", "weakref.WeakKeyDictionary"):
+                    stores = [x for m_ in cls_.body if isinstance(m_, ast.FunctionDef) for x in ast.walk(m_)
+                              if isinstance(x, ast.Subscript) and isinstance(x.ctx, ast.Store) and norm(x.value) in (f"self.{tg.id}", f"cls.{tg.id}", f"{cls_.name}.{tg.id}")]
+                    if stores:
+                        ctx.R.fail("REG-1", mod, st, f"the registry `{cls_.name}.{tg.id}` is a class attribute created once: every dispatcher made by code_dispatch (elaborate_frame, unwrap_context_generator, "
+                                   "user-made ones) shares it, so a registration for one hook is looked up by all the others", construct="registry shared between dispatchers")
+                        return
         raise AnalysisError("REG-1: `registry = ...` vanished")
     v = regs[0].value
     f = v.func if isinstance(v, ast.Call) else None
